@@ -1066,6 +1066,23 @@ def gen_schema_inp_lean(wntr, rows, kw):
         "  (%s, %s)" % (_ls("Options." + g), _ll(list(od[g].keys()))) for g in ("time", "hydraulic", "quality", "reaction", "energy")))
     def kws(l):
         return "[" + ", ".join("(%s, %s)" % (_ls(k.split(":")[0]), _ll(k.split(":")[1].split())) for k in l) + "]"
+    tw = []
+    for k in kw["w22"]:
+        sec, words = k.split(":")
+        if sec != "TIMES":
+            continue
+        ws = words.split()
+        fld = None
+        for r in rows:
+            if r["sec"] == "TIMES" and r["dir"] == "w" and set(x for x in r["ctx"].split("|") if x) == set(ws):
+                m = re.search(r"options\.time\.(\w+)", r["name"])
+                if m:
+                    fld = m.group(1)
+        if fld is None:
+            raise BrokenTie("_write_times: cannot tell which option the keyword %s is written from" % words)
+        tw.append((ws, fld))
+    out.append("/-- [TIMES]: (keyword as written, the `options.time` attribute it is written from) -/")
+    out.append("def timesWritten : List (List String × String) := [%s]\n" % ", ".join("(%s, %s)" % (_ll(ws), _ls(f)) for ws, f in tw))
     out.append("/-- (section, words of the keyword) -/")
     out.append("def kwWritten22 : List (String × List String) := %s" % kws(kw["w22"]))
     out.append("def kwWritten20 : List (String × List String) := %s" % kws(kw["w20"]))
@@ -1626,8 +1643,10 @@ class C12(Check):
         "for mixed AND/OR and for tank-head conditions; number formats {:.kf} / {:.ng} modelled on Rat with proved error bounds and a per-slot precision requirement decided on the extracted format specs; the comparison normalisation is proved idempotent. The real write_inpfile/read_inpfile is run on generated API-built models x flow "
         "unit x version and compared field by field at the precision of the writer's own format specs; a second cycle must change nothing.",
         design_ref="DESIGN.md §5 C12",
-        note="partial: modelled, not verified: number formatting and the INP tokeniser (the per-field error bound is derived from the "
-        "format spec the translator finds and checked against the implementation on every case); the hand-written specification table "
+        note="partial: number formats, the line handling of InpFile.read (blank / comment lines, headers, [END], section order, reader "
+        "order from ast) and the [TIMES] grammar are hand-transliterated models tied by the driver on every run (format strings, whole "
+        "permuted files, [TIMES] lines), ASCII white space / case only; which sections are line-order-sensitive is a hand-written list "
+        "tested by the permutation oracle; the hand-written specification table "
         "(which writer slot carries which attribute) is trusted; control/rule text printing and parsing is hand-modelled and tied by the "
         "driver correspondence; element constructors (add_*) are exercised, not modelled",
         technique="Lean 4 proof over translator-regenerated schema tables + differential run against the Lean driver + round-trip oracle on the implementation",
@@ -1638,7 +1657,8 @@ class C12(Check):
     trusted_base = ["translator harness/props/c12.py (ast of wntr/epanet/io.py: value flow into format calls and into add_*/attribute destinations)",
                     "the specification table FIELDS / OUTSIDE of harness/props/c12.py (which slot carries which attribute; what the statement excludes)",
                     "Python float formatting / parsing (bounded per field by the format spec, checked on every case)"]
-    assumptions = ["a value printed with {:W.Ng} is reproduced to 0.5*10^(1-N) relative, with {:.Nf} to 0.5*10^-N absolute (in file units), str() exactly",
+    assumptions = ["the section readers see a file only through the lines stored per section, in the fixed order InpFile.read calls them (read off the source by ast)",
+                   "a value printed with {:W.Ng} is reproduced to 0.5*10^(1-N) relative, with {:.Nf} to 0.5*10^-N absolute (in file units), str() exactly",
                    "model names contain no white space or ';' (the INP tokeniser is not modelled)",
                    "a pump speed setting of 1.0 and an unset one are the same (the format's default); a closed pump has no place for a setting"]
 
@@ -1821,9 +1841,70 @@ class C12(Check):
                 os.rmdir(workdir)
             except OSError:
                 pass
+        text_lines += self._times_requests(wntr, ctx)
         broken += self._text_correspondence(ctx, wntr, text_lines)
         broken += self._file_correspondence(ctx)
         return failures, broken
+
+    def _times_requests(self, wntr, ctx):
+        """[TIMES] lines (every keyword the writer writes, in several spellings and value forms, with and without a units
+        word) through the real `_read_times`, and START CLOCKTIME strings through `_clock_time_to_sec`"""
+        from fractions import Fraction
+        io_ = wntr.epanet.io
+        out = []
+        kws = [["DURATION"], ["HYDRAULIC", "TIMESTEP"], ["QUALITY", "TIMESTEP"], ["PATTERN", "TIMESTEP"], ["PATTERN", "START"], ["REPORT", "TIMESTEP"],
+               ["REPORT", "START"], ["RULE", "TIMESTEP"]]
+        rng = ctx.rng
+        for kw in kws:
+            for rep in range(3):
+                sec = rng.choice([0, 59, 60, 3599, 3600, 3661, 86399, 86400, 90061, rng.randrange(0, 400000)])
+                if "TIMESTEP" in kw:
+                    sec = max(sec, 3600)  # TimeOptions itself refuses / clamps non-positive timesteps (not the reader's doing)
+                h, m, x = sec // 3600, (sec % 3600) // 60, sec % 60
+                forms = [("%02d:%02d:%02d" % (h, m, x), "h:%d:%d:%d" % (h, m, x)), ("%d:%02d" % (h, m), "m:%d:%d" % (h, m)), (str(h), "d:%d" % h)]
+                dec = rng.choice([0.25, 1.5, 0.1, 2.75, 13.3])
+                fr = Fraction(dec)
+                forms.append((repr(dec), "d:%d/%d" % (fr.numerator, fr.denominator)))
+                txt, enc = forms[rep % len(forms)] if rep < 2 else rng.choice(forms)
+                words = [w if rng.random() < 0.5 else w.capitalize() for w in kw]
+                line = " ".join(words) + "   " + txt + rng.choice(["", " HOURS", " MIN", ""])
+                inp = io_.InpFile()
+                inp.wn = wntr.network.WaterNetworkModel()
+                before = dict(inp.wn.options.to_dict()["time"])
+                inp.sections["[TIMES]"] = [(1, line)]
+                try:
+                    inp._read_times()
+                    after = dict(inp.wn.options.to_dict()["time"])
+                    ch = [(k, after[k]) for k in after if after[k] != before.get(k)]
+                    extra = [k for k in vars(inp.wn.options.time) if k not in before and not k.startswith("_")]
+                    if len(ch) == 1:
+                        exp = "%s %d" % (ch[0][0], int(ch[0][1]))
+                    elif not ch:
+                        exp = None  # the value equals the default: nothing to see
+                    else:
+                        exp = "changed %s" % ch
+                except Exception as e:
+                    exp = "raises %s" % type(e).__name__
+                if exp is not None:
+                    out.append(("M %s %s %s" % (words[0], words[1] if len(words) > 1 else "-", enc), exp, "_read_times on %r" % line))
+        for rep in range(10):
+            sec = rng.choice([0, 1800, 43199, 43200, 45000, 86399, rng.randrange(0, 86400)])
+            h, m, x = sec // 3600, (sec % 3600) // 60, sec % 60
+            hh, ap = (h, "AM") if h < 12 else (h - 12, "PM")
+            txt = "%02d:%02d:%02d" % (hh, m, x)
+            try:
+                exp = str(int(io_._clock_time_to_sec(txt, ap)))
+            except Exception:
+                exp = "none"
+            out.append(("U %d %d %d %s" % (hh, m, x, ap), exp, "_clock_time_to_sec(%r, %r) as _write_times writes %d s" % (txt, ap, sec)))
+        for (hh, m, x, ap) in ((12, 0, 0, "PM"), (12, 30, 0, "AM"), (13, 0, 0, "PM"), (11, 59, 59, "PM")):
+            txt = "%02d:%02d:%02d" % (hh, m, x)
+            try:
+                exp = str(int(io_._clock_time_to_sec(txt, ap)))
+            except Exception:
+                exp = "none"
+            out.append(("U %d %d %d %s" % (hh, m, x, ap), exp, "_clock_time_to_sec(%r, %r)" % (txt, ap)))
+        return [(a, b, "times: " + c) for a, b, c in out]
 
     def _file_correspondence(self, ctx):
         """the model's first loop of `InpFile.read` (blank lines, headers, [END], stored lines) on whole permuted files against
